@@ -50,7 +50,7 @@ inductive Err where
   | notObject
   /-- the r-tree is empty: "nearest vertex not found" -/
   | noCandidate
-  /-- `validate_tolerance`: distance ≥ tolerance -/
+  /-- `validate_tolerance`: distance > tolerance -/
   | beyondTolerance
   /-- `haversine` refuses a coordinate outside [-180,180] × [-90,90] -/
   | distanceRange
@@ -114,14 +114,14 @@ structure VCand (α : Type) where
 section
 variable {α : Type} [Mul α] [Div α] [Lit α] [LE α] [DecidableLE α]
 
-/-- `validate_tolerance`: the distance is converted INTO the tolerance's unit and compared with `>=` -/
+/-- `validate_tolerance`: the distance is converted INTO the tolerance's unit; an error when it is `>` the tolerance -/
 def validateTolerance (tol : Option (α × DistanceUnit)) (c : VCand α) : Except Err Unit :=
   match tol with
   | none => .ok ()
   | some (t, u) =>
     match c.gc with
     | none => .error .distanceRange
-    | some g => if t ≤ DistanceUnit.meters.convert u g then .error .beyondTolerance else .ok ()
+    | some g => if DistanceUnit.meters.convert u g ≤ t then .ok () else .error .beyondTolerance
 
 /-- `VertexRTree::nearest_vertex`: the head of the nearest-first candidate list -/
 def nearestVertex (cands : List (VCand α)) : Option (VCand α) := cands.head?
